@@ -156,6 +156,14 @@ class Ctx:
                 res["drift"].append(json.loads(line[6:]))
         if rc == 2 or rc == -999:
             raise ToolError("harness %s failed rc=%s: %s" % (args[:2], rc, res["stderr"]))
+        if rc != 0 and not res["panics"]:
+            # the process died without our panic hook speaking (abort across an FFI boundary, a
+            # non-unwinding panic inside the plugin, a signal): that is data about the code under
+            # test, not a tool error
+            tail = [x for x in (err or "").strip().split("\n") if x][-12:]
+            res["panics"].append({"op": "process exited abnormally (rc=%s) while running %s" % (rc, " ".join(str(a) for a in args[:6])),
+                                  "msg": " | ".join(t.strip() for t in tail if "panicked" in t or "overflow" in t or "Abort" in t or "unsafe" in t)[:400],
+                                  "stderr_tail": tail[-6:]})
         return res
 
     # ------------------------------------------------------------------ TLC
